@@ -258,6 +258,9 @@ func (db *DB) loadFile(path string) error {
 					return fail(fmt.Errorf("loop N invariant|decreases expr"))
 				}
 				n, err := strconv.Atoi(strings.TrimSuffix(fields[1], ":"))
+				if fields[1] == "*" {
+					n, err = -1, nil // every loop of the function
+				}
 				if err != nil {
 					return fail(err)
 				}
